@@ -60,6 +60,27 @@ def *gen(a: Int, n: Int): Int
 end
 var empty_list: List[Int] = []
 var empty_tuple: Tuple[Int] = %[]
+def forit(it: PrimitiveIterable[Int, never], cap: Int): List[Int]
+  var l: List[Int] = []
+  for i in it
+    break if l.length >= cap
+    l << i
+  end
+  l
+end
+'''
+
+# for-in over a range, with a cap on the number of iterations (a loop that does not stop shows as extra elements)
+FORCASE = '''do
+  %(pre)svar l_%(id)s: List[Int] = []
+  for i in %(expr)s
+    break if l_%(id)s.length >= %(cap)d
+    l_%(id)s << i
+  end
+  out("%(id)s", l_%(id)s)
+catch e
+  println("%(id)s E:other")
+end
 '''
 
 CASE = '''do
@@ -96,6 +117,9 @@ class Iterable:
     def __init__(self, cls, expr, req, elems, finite=True, ordered=True, w=0, lo=0, hi=0):
         self.cls, self.expr, self.req, self.elems = cls, expr, req, elems
         self.finite, self.ordered, self.w, self.lo, self.hi = finite, ordered, w, lo, hi
+        self.anchor = None      # "<anchor name>/<variant>" for the boundary-anchored ranges
+        self.lite = False       # reduced operation set (quick tier, anchored ranges)
+        self.bounded = False    # the bounded probe showed that its iterator does not stop: bounded operations only
 
     def wrapped(self):
         if self.cls == "failing":
@@ -119,6 +143,83 @@ def relems(kind, a, b):
     if kind == "open":
         return list(range(a + 1, b))
     return None
+
+
+MAXS, MINS = 2 ** 63 - 1, -2 ** 63    # value.MaxSmallInt / value.MinSmallInt: Int changes representation here
+ANCHORS = [("maxsmallint", MAXS), ("minsmallint", MINS), ("2^63", MAXS + 1), ("-2^63-1", MINS - 1),
+           ("maxsmallint-1", MAXS - 1), ("minsmallint+1", MINS + 1), ("2^64", 2 ** 64), ("-2^64", -2 ** 64),
+           ("2^64-1", 2 ** 64 - 1), ("2^63+1", MAXS + 2), ("-2^63-2", MINS - 2)]
+
+
+def bclass(z):
+    """canonical class of a range bound (for failure keys)"""
+    for name, v in ANCHORS[:4]:
+        if z == v:
+            return name
+    if -2 ** 31 <= z < 2 ** 31:
+        return "small"
+    return "smallint" if MINS <= z <= MAXS else "bigint"
+
+
+def anchored_bounds(kind, z, variant, d):
+    """bounds of a range of `kind` whose start / end / first element / last element is exactly z;
+    d = distance between the bounds (may be 0: single element or empty, by kind)"""
+    if variant == "start":
+        return z, z + d
+    if variant == "end":
+        return z - d, z
+    if variant == "first":
+        a = z - 1 if kind in ("open", "lopen", "eopen") else z
+        return a, a + d
+    b = z + 1 if kind in ("open", "ropen") else z      # "last"
+    return b - d, b
+
+
+def mk_range(kind, a, b, anchor=None):
+    if kind in FINITE:
+        it = Iterable("range:" + kind, range_expr(kind, a, b), "R 0 %s %d %d" % (kind, a, b), relems(kind, a, b), lo=a, hi=b)
+    else:
+        first = a if kind == "eclosed" else a + 1
+        it = Iterable("range:" + kind, range_expr(kind, a, 0), "R 0 %s %d 0" % (kind, a),
+                      [first + i for i in range(8)], finite=False, lo=a, hi=a + 6)
+    it.anchor = anchor
+    return it
+
+
+def gen_anchored(rng, tier):
+    """Boundary-anchored ranges of every iterable kind: start / end / first element / last element exactly on
+    Min/MaxSmallInt, their neighbours, +-2^63, +-2^64, x distances 0..4 between the bounds. Quick tier: for every
+    kind the four variants on MaxSmallInt (end, last) and MinSmallInt (start, first) with a seeded distance, the
+    endless kinds starting just below each of the first four anchors, plus a seeded sample of the rest of the grid;
+    thorough tier: a larger sample with the full operation set."""
+    out, seen = [], set()
+
+    def add(kind, name, z, variant, d, lite):
+        a, b = anchored_bounds(kind, z, variant, d)
+        if kind in ENDLESS:
+            b = 0
+        if (kind, a, b) in seen:
+            return
+        seen.add((kind, a, b))
+        it = mk_range(kind, a, b, anchor="%s/%s" % (name, variant))
+        it.lite = lite
+        out.append(it)
+
+    quick = tier == "quick"
+    for kind in FINITE:
+        for name, z in ANCHORS[:2]:
+            for variant in (("end", "last") if z > 0 else ("start", "first")):
+                add(kind, name, z, variant, rng.range(1, 3), quick)
+    for kind in ENDLESS:
+        for name, z in ANCHORS[:4]:
+            add(kind, name, z - rng.range(0, 3), "start", 0, quick)
+    grid = [(k, nm, z, v, d) for k in FINITE for nm, z in ANCHORS for v in ("start", "end", "first", "last")
+            for d in (0, 1, 2, 3, 4)]
+    grid += [(k, nm, z - j, "start", 0) for k in ENDLESS for nm, z in ANCHORS for j in (0, 1, 5)]
+    rng.shuffle(grid)
+    for k, nm, z, v, d in grid[:(10 if quick else 160)]:
+        add(k, nm, z, v, d, quick)
+    return out
 
 
 def gen_iterables(rng, n, tier):
@@ -233,6 +334,10 @@ NULLARY = ("is_empty", "first", "try_first", "last", "try_last", "to_list", "to_
 
 def gen_ops(it, rng):
     """all operation requests for one iterable: [(model op string, elk call suffix)]"""
+    if it.bounded:
+        return gen_ops_bounded(it)
+    if it.lite:
+        return gen_ops_lite(it)
     ops = []
     n = len(it.elems) if it.finite else 4
     lo, hi = it.lo, it.hi
@@ -259,6 +364,54 @@ def gen_ops(it, rng):
         ops.append(("reduce " + g, "reduce(%s)" % fn2_elk(g)))
         for i in (0, -7):
             ops.append(("fold %d %s" % (i, g), "fold(%d, %s)" % (i, fn2_elk(g))))
+    return ops
+
+
+def gen_ops_lite(it):
+    """the reduced operation set of the quick tier for boundary-anchored ranges: every operation once or twice"""
+    ops = []
+    n = len(it.elems) if it.finite else 4
+    lo, hi = it.lo, it.hi
+    mid = it.elems[len(it.elems) // 2] if it.elems else lo
+    t_last = it.elems[-1] if it.elems else mid
+    for x in sorted(set([lo - 1, hi + 1] + it.elems[:1] + it.elems[-1:])):
+        ops.append(("contains %d" % x, "contains(%d)" % x))
+        ops.append(("index_of %d" % x, "index_of(%d)" % x))
+    for k in sorted(set([-1, 0, 1, n, n + 1, n + 3])):
+        ops.append(("take %d" % k, "take(%d)" % k))
+    for k in sorted(set([0, 1, n, n + 1])):
+        ops.append(("drop %d" % k, "drop(%d)" % k))
+    for o in NULLARY:
+        ops.append((o, o))
+    for f in ("add:1", "thr:%d:mul:2" % t_last):
+        ops.append(("map " + f, "map(%s)" % fn1_elk(f)))
+    for p in ("gt:%d" % mid, "eq:%d" % t_last, "lt:%d" % (lo - 2)):
+        for o in PRED_OPS:
+            ops.append(("%s %s" % (o, p), "%s(%s)" % (o, pred_elk(p))))
+    for g, i in (("add", 0), ("muladd:10", -7)):
+        ops.append(("reduce " + g, "reduce(%s)" % fn2_elk(g)))
+        ops.append(("fold %d %s" % (i, g), "fold(%d, %s)" % (i, fn2_elk(g))))
+    return ops
+
+
+def gen_ops_bounded(it):
+    """operations that read only a bounded prefix when the expected elements come first, for a finite range whose
+    iterator was seen NOT to stop (so that the defect shows as wrong results of these, never as a hang)"""
+    ops = []
+    n = len(it.elems)
+    for k in range(-1, n + 4):
+        ops.append(("take %d" % k, "take(%d)" % k))
+    ops += [("is_empty", "is_empty"), ("try_first", "try_first"), ("take_while false", "take_while(%s)" % pred_elk("false"))]
+    if it.elems:
+        mid, last = it.elems[n // 2], it.elems[-1]
+        ops.append(("first", "first"))
+        for x in sorted(set([it.elems[0], last])):
+            ops.append(("index_of %d" % x, "index_of(%d)" % x))
+            ops.append(("contains %d" % x, "contains(%d)" % x))
+        for o, p in (("take_while", "lt:%d" % mid), ("take_while", "lt:%d" % last), ("find", "eq:%d" % last),
+                     ("try_find", "eq:%d" % last), ("any", "eq:%d" % last), ("find_index", "eq:%d" % last),
+                     ("every", "lt:%d" % last)):
+            ops.append(("%s %s" % (o, p), "%s(%s)" % (o, pred_elk(p))))
     return ops
 
 
@@ -326,27 +479,98 @@ def run(ctx):
         "returns the undefined value (refuted + partial), fixed-width integer ranges wrap at the type maximum (refuted + "
         "partial). Differential-tested only: that the Coq model mirrors the Go code (stream c23.ops runs generated Elk programs "
         "through `elk run` on every range kind/list/tuple/set/Int iterator/generator/throwing user iterator x every operation x argument values; stream "
-        "c23.api calls vm.*RangeContains / *IteratorNext directly). Not modelled: maps, channels, strings as "
+        "c23.forin iterates ranges through for loops (literal, variable, r.iter, generic parameter, wrapper) and the explicit "
+        "native iterator with capped loops; stream c23.api calls vm.*RangeContains / *IteratorNext / *IteratorAll directly). "
+        "The model's Int is Z, so it has no SmallInt/BigInt representation boundary; that the implementation has none either "
+        "is tested, not proved: all three streams contain boundary-anchored ranges of every kind (start / end / first / last "
+        "element exactly on MinSmallInt, MaxSmallInt, their neighbours, +-2^63, +-2^64), each finite range first through a "
+        "bounded probe (take(n+3) / capped Next loop) so that an iterator that does not stop is reported as a wrong element "
+        "list. Not modelled: maps, channels, strings as "
         "iterables; non-Int element types other than Int8 ranges; the iterator state left behind by take (it consumes k+1).")
     ctx.trusted_base += [
         "Elk Int Increment/comparison modelled as Z successor/order (C06 covers Int arithmetic); Equal on Ints as Z.eqb",
         "the generated Elk wrapper class (include Iterable::Base + attr iter) reaches vm/iterable.go through vm.Iterate's default branch",
-        "Python generator/canonicaliser of c23.ops (strips the ArrayList capacity suffix ':N' and the iN literal suffix)",
+        "Python generator/canonicaliser of c23.ops and c23.forin (strips the ArrayList capacity suffix ':N' and the iN literal suffix)",
+        "the Python description of a range's elements (range(a, b+1) etc.) used by the bounded probe and c23.forin; cross-checked against the extracted model on every case",
     ]
     ctx.run_proof_gate()
     model = vlib.build_model("C23")
     elk = vlib.build_elk()
     ops_stream(ctx, model, elk)
+    forin_stream(ctx, model, elk)
     direct_stream(ctx, model, elk)
     api_stream(ctx, model)
 
 
 # ------------------------------------------------------------------ c23.ops
 
+BOUNDED_OPS = ("take", "take_while", "index_of", "contains", "first", "try_first", "is_empty", "find", "try_find", "any",
+               "find_index", "every")
+
+
+def parse_list(o):
+    if o.startswith("[") and o.endswith("]"):
+        try:
+            return [int(x) for x in o[1:-1].split(",") if x.strip()]
+        except ValueError:
+            return None
+    return None
+
+
+def probe_ranges(ctx, stream, model, elk, its):
+    """Bounded materialisation of every finite Int range before anything unbounded is run on it:
+    W(r.iter).take(n+3) must return exactly the n elements the bounds describe. A range whose iterator yields
+    more is a concrete failing input (never a hang); it is marked `bounded` and only gets prefix operations."""
+    todo = [it for it in its if it.finite and it.w == 0 and it.cls.startswith("range:")]
+    if not todo:
+        return 0
+    reqs, srcs, batch = {}, [], []
+    for j, it in enumerate(todo):
+        k = len(it.elems) + 3
+        reqs["k%dq" % j] = it.req + " take %d" % k
+        batch.append(CASE % dict(id="k%dq" % j, expr="%s.take(%d)" % (it.wrapped(), k)))
+        if len(batch) >= 40 or j == len(todo) - 1:
+            srcs.append(("q%d" % len(srcs), HEADER + "".join(batch)))
+            batch = []
+    rc, exp, mout = model_answers(model, reqs, fuel=600)
+    if rc != 0:
+        ctx.broke("correspondence %s: model driver (probe) exited %d" % (stream, rc), mout[-2000:])
+    res = vlib.run_programs(elk, srcs, os.path.join(ctx.workdir, "probe"), timeout=90)
+    got = {}
+    for pid, (rc_, out, cls) in res.items():
+        for line in out.splitlines():
+            m = TAG_RE.match(line)
+            if m:
+                got[m.group(1)] = m.group(2)
+    for j, it in enumerate(todo):
+        cid = "k%dq" % j
+        want = "[" + ", ".join(map(str, it.elems)) + "]"
+        obs = canon(got.get(cid, "missing"))
+        e = exp.get(cid)
+        if obs == want and e == want:
+            continue
+        it.bounded = True
+        case = "%s.take(%d)" % (it.wrapped(), len(it.elems) + 3)
+        _, _, kind, a, b = it.req.split()
+        l = parse_list(obs)
+        if l is not None and len(l) > len(it.elems) and l[:len(it.elems)] == it.elems:
+            key = "iter:range:%s:never-stops:start=%s:end=%s" % (kind, bclass(int(a)), bclass(int(b)))
+            what = "%s has %d elements (%s) but its iterator goes on after them: take(%d) = %s" % (
+                it.expr, len(it.elems), want, len(it.elems) + 3, obs)
+        else:
+            key = "iter:range:%s:probe:%s-vs-list:start=%s:end=%s" % (kind, oclass(obs), bclass(int(a)), bclass(int(b)))
+            what = "%s = %s, its bounds describe %s (model %s)" % (case, obs, want, e)
+        ctx.fail(key, what, stream=stream, case=case, impl=obs, model=want,
+                 oracle="iteration yields exactly the elements in order (bounded probe take(n+3))")
+    return len(todo)
+
+
 def ops_stream(ctx, model, elk):
     stream = "c23.ops"
     rng = ctx.rng(stream)
     its = gen_iterables(rng, ctx.n(36, 400), ctx.tier)
+    anch = gen_anchored(ctx.rng(stream + ".anchored"), ctx.tier)
+    its = its + anch
     corpus = read_corpus(os.path.join(vlib.ROOT, "corpus", "C23.ops.txt"))
     cases = []   # dict(id, it, op, elk, kind)
     cid = 0
@@ -356,20 +580,25 @@ def ops_stream(ctx, model, elk):
         cases.append(dict(id="k%d" % cid, it=it, op=op, expr=expr, kind=kind, prog=prog))
         cid += 1
 
+    parsed = [parse_corpus_case(line) for line in corpus]
+    parsed = [(it, op) for it, op in parsed if it is not None]
+    nprobed = probe_ranges(ctx, stream, model, elk, [it for it, _ in parsed] + its)
     # corpus first: "<w> <kind> <a> <b> | <op>"  or "L <csv> | <op>"
-    for line in corpus:
-        it, op = parse_corpus_case(line)
-        if it is None:
+    for it, op in parsed:
+        if it.bounded and op.split()[0] not in BOUNDED_OPS:
             continue
         call = dict(gen_ops_all(it, op))
         add(it, op, "%s.%s" % (it.wrapped(), call[op]), "op")
+        if it.bounded:
+            continue
         if it.finite:
             add(it, "to_list", it.wrapped() + ".to_list", "tolist")
         else:
             add(it, "take 8", it.wrapped() + ".take(8)", "tolist")
     ncorpus = len(cases)
     for it in its:
-        add(it, "to_list" if it.finite else "take 8", it.wrapped() + (".to_list" if it.finite else ".take(8)"), "tolist")
+        if not it.bounded:
+            add(it, "to_list" if it.finite else "take 8", it.wrapped() + (".to_list" if it.finite else ".take(8)"), "tolist")
         for op, call in gen_ops(it, rng):
             add(it, op, "%s.%s" % (it.wrapped(), call), "op")
         if it.cls.startswith("range:"):
@@ -377,7 +606,7 @@ def ops_stream(ctx, model, elk):
                 add(it, "rcontains %d" % x, "%s.contains(%d)" % (it.expr, x), "rcontains")
     # beginless ranges: contains only
     for kind in ("bclosed", "bopen"):
-        for b in (-1, 0, 2, 2 ** 63, -2 ** 63 - 1):
+        for b in (-1, 0, 2, 2 ** 63, -2 ** 63 - 1, MAXS, MINS, 2 ** 64, -2 ** 64):
             it = Iterable("range:" + kind, range_expr(kind, 0, b), "R 0 %s 0 %d" % (kind, b), None, finite=False, lo=b, hi=b)
             for x in range(b - 2, b + 3):
                 add(it, "rcontains %d" % x, "%s.contains(%d)" % (it.expr, x), "rcontains")
@@ -398,15 +627,26 @@ def ops_stream(ctx, model, elk):
     skipped = len(cases) - len(live)
 
     # programs: batch per iterable, ~120 cases per program
+    # (the cases of a range whose iterator does not stop go into programs of their own, one per range)
     progs = []
     batch, bi = [], 0
     for c in live:
+        if c["it"].bounded:
+            continue
         batch.append(c)
         if len(batch) >= 120:
             progs.append(("p%d" % bi, batch))
             batch, bi = [], bi + 1
     if batch:
         progs.append(("p%d" % bi, batch))
+        bi += 1
+    byit = {}
+    for c in live:
+        if c["it"].bounded:
+            byit.setdefault(id(c["it"]), []).append(c)
+    for b in byit.values():
+        progs.append(("p%d" % bi, b))
+        bi += 1
     srcs = [(pid, HEADER + "".join(CASE % dict(id=c["id"], expr=c["expr"]) for c in b)) for pid, b in progs]
     res = vlib.run_programs(elk, srcs, os.path.join(ctx.workdir, "ops"), timeout=120)
     got = {}
@@ -458,6 +698,8 @@ def ops_stream(ctx, model, elk):
         obs = canon(got.get(c["id"], "missing"), it.w)
         opname = op.split()[0]
         dist[it.cls + "/" + opname] = dist.get(it.cls + "/" + opname, 0) + 1
+        if it.anchor:
+            dist["anchored:" + it.anchor] = dist.get("anchored:" + it.anchor, 0) + 1
         if it.elems or not it.finite:
             distinct.add((it.expr, op))
         e1 = exp.get(c["id"])
@@ -522,12 +764,17 @@ def ops_stream(ctx, model, elk):
                      oracle="operation result = list model applied to the implementation's own to_list")
     ctx.stream(stream, len(live), len(distinct),
                "every range kind (closed/open/left-open/right-open/endless x2; beginless for contains) with starts -2,0,1 and "
-               "lengths -2..5 (some shifted across 2^63/2^64), lists/tuples/sets/Int iterators/generators/a user-defined throwing iterator of 0-6 elements, each x all 24 "
+               "lengths -2..5 (some shifted across 2^63/2^64) plus boundary-anchored ranges of every iterable kind (start / end / "
+               "first element / last element exactly on MinSmallInt, MaxSmallInt, their neighbours, +-2^63, +-2^64, bound distance "
+               "0..4; beginless contains at the same anchors; reduced operation set in the quick tier); every finite Int range "
+               "is first materialised through the bounded probe take(n+3) so that a non-stopping iterator is a wrong result, "
+               "not a hang (such a range then only gets prefix-bounded operations); lists/tuples/sets/Int iterators/generators/a user-defined throwing iterator of 0-6 elements, each x all 24 "
                "operations x arguments (take/drop -2..n+2, contains/index_of around the bounds, 4 map closures, 11 predicates "
                "incl. throwing, 5 reducers incl. throwing, fold inits 0/-7); non-trivial = iterable non-empty; distinct by "
                "(iterable expression, operation+argument)",
                samples, dist, mismatches=mism, corpus_cases=ncorpus, programs=len(progs),
-               skipped_nonterminating_on_endless=skipped, iterables=len(its))
+               skipped_nonterminating_on_endless=skipped, iterables=len(its), anchored_ranges=len(anch),
+               probed_ranges=nprobed, ranges_whose_iterator_does_not_stop=len([i for i in its if i.bounded]))
 
 
 def py_contains(kind, a, b, x):
@@ -579,6 +826,138 @@ def parse_corpus_case(line):
         return None, None
 
 
+# ------------------------------------------------------------------ c23.forin
+
+FORMS = ("for-literal", "for-variable", "for-iter", "for-generic", "for-wrapped", "iter.take", "iter.take_while", "iter.index_of")
+
+
+def forin_stream(ctx, model, elk):
+    """Iteration of ranges the way programs do it: `for i in <range literal>` and `for i in <range variable>` (both
+    compiled to numeric loops), `for i in r.iter`, a for loop over a PrimitiveIterable parameter holding the range or
+    a user-defined wrapper (generic GET_ITERATOR/next path), and the explicit native iterator `r.iter` with the
+    prefix-bounded operations take / take_while / index_of. Every loop is capped at n+3 iterations."""
+    stream = "c23.forin"
+    rng = ctx.rng(stream)
+    ranges = []
+    for kind in FINITE + ENDLESS:
+        combos = [(a, d) for a in (-2, 0, 1) for d in ((-1, 0, 1, 2, 4) if kind in FINITE else (0,))]
+        rng.shuffle(combos)
+        for a, d in combos[:ctx.n(3, 15)]:
+            ranges.append(mk_range(kind, a, a + d))
+    ranges += gen_anchored(ctx.rng(stream + ".anchored"), ctx.tier)
+    cases = []
+    for it in ranges:
+        n = len(it.elems) if it.finite else 8
+        cap = n + 3 if it.finite else 8
+        last = it.elems[-1] if it.elems else it.hi
+        for form in FORMS:
+            c = dict(id="k%d" % len(cases), it=it, form=form, cap=cap, want=it.elems[:cap], pre="")
+            if form == "for-literal":
+                c["expr"] = it.expr[1:-1]
+            elif form == "for-variable":
+                c["pre"] = "r_%s := %s\n  " % (c["id"], it.expr)
+                c["expr"] = "r_" + c["id"]
+            elif form == "for-iter":
+                c["expr"] = it.expr + ".iter"
+            elif form == "for-generic":
+                c["call"] = "forit(%s, %d)" % (it.expr, cap)
+            elif form == "for-wrapped":
+                c["call"] = "forit(%s, %d)" % (it.wrapped(), cap)
+            elif form == "iter.take":
+                c["call"] = "%s.iter.take(%d)" % (it.expr, cap)
+            elif form == "iter.take_while":
+                # (take_while is eager) stops at the first element outside [first, last] of the expected elements,
+                # so also on an iterator that wrapped around instead of stopping
+                stop = last if it.finite else it.elems[cap - 1]
+                c["call"] = "%s.iter.take_while(|x| -> x >= (%d) && x <= (%d)).take(%d)" % (
+                    it.expr, it.elems[0] if it.elems else it.lo, stop, cap)
+                if it.finite and not it.elems:
+                    c["call"] = "%s.iter.take_while(|x| -> false)" % it.expr
+            else:
+                if not it.elems:
+                    continue
+                x = it.elems[min(len(it.elems), cap) - 1]
+                c["call"] = "%s.iter.index_of(%d)" % (it.expr, x)
+                c["want"] = min(len(it.elems), cap) - 1
+            cases.append(c)
+
+    def src(c):
+        if "call" in c:
+            return CASE % dict(id=c["id"], expr=c["call"])
+        return FORCASE % c
+
+    reqs = {}
+    for c in cases:
+        _, w, kind, a, b = c["it"].req.split()
+        reqs[c["id"]] = "E 0 %s %s %s %d" % (kind, a, b, c["cap"])
+    rc, exp, mout = model_answers(model, reqs, fuel=600)
+    if rc != 0:
+        ctx.broke("correspondence %s: model driver exited %d" % (stream, rc), mout[-2000:])
+    progs = [("f%d" % (j // 50), cases[j:j + 50]) for j in range(0, len(cases), 50)]
+    res = vlib.run_programs(elk, [(pid, HEADER + "".join(src(c) for c in b)) for pid, b in progs],
+                            os.path.join(ctx.workdir, "forin"), timeout=60)
+    got = {}
+    for pid, (rc_, out, cls) in res.items():
+        for line in out.splitlines():
+            m = TAG_RE.match(line)
+            if m:
+                got[m.group(1)] = m.group(2)
+    missing = [c for c in cases if c["id"] not in got]
+    if missing:
+        res2 = vlib.run_programs(elk, [("s" + c["id"], HEADER + src(c)) for c in missing[:80]],
+                                 os.path.join(ctx.workdir, "forin1"), timeout=20)
+        for c in missing[:80]:
+            rc_, out, cls = res2["s" + c["id"]]
+            for line in out.splitlines():
+                m = TAG_RE.match(line)
+                if m and m.group(1) == c["id"]:
+                    got[c["id"]] = m.group(2)
+            if c["id"] not in got:
+                first = next((l for l in out.splitlines() if l.strip()), "")
+                got[c["id"]] = ("panic " if cls in ("go_panic", "go_fatal") else cls + " ") + first[:160]
+        if len(missing) > 80:
+            ctx.broke("correspondence %s: %d cases produced no output" % (stream, len(missing) - 80),
+                      "\n".join(src(c) for c in missing[80:84]))
+    dist, distinct, mism, samples = {}, set(), 0, []
+    for c in cases:
+        it, form = c["it"], c["form"]
+        obs = canon(got.get(c["id"], "missing")).lstrip("%")
+        want = c["want"]
+        wants = str(want) if isinstance(want, int) else "[" + ", ".join(map(str, want)) + "]"
+        case = c.get("call") or "for i in %s%s (at most %d iterations)" % (c["pre"].replace("\n  ", "; "), c["expr"], c["cap"])
+        dist[form + "/" + it.cls] = dist.get(form + "/" + it.cls, 0) + 1
+        if it.anchor:
+            dist["anchored:" + it.anchor] = dist.get("anchored:" + it.anchor, 0) + 1
+        if want != []:
+            distinct.add(case)
+        if len(samples) < 4 and len(distinct) % 37 == 1:
+            samples.append({"input": case, "observed": obs[:160]})
+        e = exp.get(c["id"])
+        if form != "iter.index_of" and e is not None and e != wants:
+            ctx.broke("correspondence %s: generator and model disagree on %s" % (stream, it.expr), "%s vs %s" % (wants, e))
+        if obs == wants:
+            continue
+        mism += 1
+        _, _, kind, a, b = it.req.split()
+        bounds = "start=%s" % bclass(int(a)) + (":end=%s" % bclass(int(b)) if it.finite else "")
+        l = parse_list(obs)
+        if it.finite and isinstance(want, list) and l is not None and len(l) > len(want) and l[:len(want)] == want:
+            key = "forin:%s:range:%s:never-stops:%s" % (form, kind, bounds)
+            what = "%s: %s has the %d elements %s but the iteration goes on: %s" % (case, it.expr, len(want), wants, obs)
+        else:
+            key = "forin:%s:range:%s:%s-vs-%s:%s" % (form, kind, oclass(obs), oclass(wants), bounds)
+            what = "%s yields %s, the bounds describe %s" % (case, obs[:200], wants)
+        ctx.fail(key, what, stream=stream, case=case, impl=obs, model=wants,
+                 oracle="iteration yields exactly the elements in order (model: proved range_next progression)")
+    ctx.stream(stream, len(cases), len(distinct),
+               "every iterable range kind (3 small ranges per kind incl. empty/reversed, plus the boundary-anchored ranges of "
+               "c23.ops with an independent seed) x 8 ways of iterating: for over a range literal / a range variable (numeric "
+               "loops), for over r.iter, for over a PrimitiveIterable parameter holding the range / a user-defined wrapper, "
+               "r.iter.take(n+3), r.iter.take_while(first <= x <= last).take(n+3), r.iter.index_of(last); loops capped at n+3 iterations "
+               "(8 for endless ranges); non-trivial = non-empty expected elements; distinct by program text",
+               samples, dist, mismatches=mism, ranges=len(ranges), programs=len(progs))
+
+
 # ------------------------------------------------------------------ c23.direct
 
 def direct_stream(ctx, model, elk):
@@ -614,15 +993,36 @@ def direct_stream(ctx, model, elk):
     cases = []
     for cls, expr, el, ordered, req in recv:
         for op, call in (map_ops if cls == "map" else ops):
-            cases.append(dict(id="k%d" % len(cases), cls=cls, expr="%s.%s" % (expr, call), op=op, el=el, ordered=ordered, req=req))
+            cases.append(dict(id="k%d" % len(cases), cls=cls, recv=expr, expr="%s.%s" % (expr, call), op=op, el=el,
+                              ordered=ordered, req=req))
     reqs = {c["id"]: c["req"] + " " + c["op"] for c in cases if c["req"]}
     rc, exp, mout = model_answers(model, reqs, fuel=600)
     live = [c for c in cases if exp.get(c["id"]) != "nofuel"]
     reqs2 = {c["id"]: "S %s %s" % (csv(c["el"]), c["op"]) for c in live if c["el"] is not None and c["ordered"] and c["req"] and
              c["req"].startswith("L")}
     rc, exp2, mout = model_answers(model, reqs2)
-    srcs = [(c["id"], HEADER + CASE % dict(id=c["id"], expr=c["expr"])) for c in live]
-    res = vlib.run_programs(elk, srcs, os.path.join(ctx.workdir, "direct"), timeout=60)
+    # one program per receiver first; every case without output (an invalid-method panic kills the whole
+    # program) is then rerun in a program of its own
+    groups = {}
+    for c in live:
+        groups.setdefault(c["recv"], []).append(c)
+    gsrcs = [("g%d" % j, HEADER + "".join(CASE % dict(id=c["id"], expr=c["expr"]) for c in g))
+             for j, g in enumerate(groups.values())]
+    gres = vlib.run_programs(elk, gsrcs, os.path.join(ctx.workdir, "directg"), timeout=60)
+    res = {}
+    for j, g in enumerate(groups.values()):
+        rc_, out, cls_ = gres["g%d" % j]
+        tagged = {}
+        for line in out.splitlines():
+            m = TAG_RE.match(line)
+            if m:
+                tagged[m.group(1)] = line
+        for c in g:
+            if c["id"] in tagged:
+                res[c["id"]] = (0, tagged[c["id"]], "ok")
+    alone = [c for c in live if c["id"] not in res]
+    res.update(vlib.run_programs(elk, [(c["id"], HEADER + CASE % dict(id=c["id"], expr=c["expr"])) for c in alone],
+                                 os.path.join(ctx.workdir, "direct"), timeout=60))
     dist, distinct, mism, samples = {}, set(), 0, []
     for c in live:
         rc_, out, cls_ = res[c["id"]]
@@ -663,8 +1063,9 @@ def direct_stream(ctx, model, elk):
                      oracle="operation result = list model on the elements")
     ctx.stream(stream, len(live), len(distinct),
                "the operations called directly on native iterators (6 range iterator kinds, list/tuple/set/Int iterators) and on "
-               "list/tuple/set/map values, one program per case; %d operations per receiver in this tier; non-trivial = all; "
-               "distinct by expression" % len(ops), samples, dist, mismatches=mism)
+               "list/tuple/set/map values, one program per receiver (cases without output rerun alone); %d operations per "
+               "receiver in this tier; non-trivial = all; distinct by expression" % len(ops), samples, dist, mismatches=mism,
+               rerun_alone=len(alone))
 
 
 # ------------------------------------------------------------------ c23.api
@@ -672,15 +1073,26 @@ def direct_stream(ctx, model, elk):
 def api_keyfn(inp, obs, exp):
     f = inp.split()
     kind = f[1] if f[0] == "C" else (f[2] if len(f) > 2 else "-")
+    if f[0] in ("E", "A") and (obs.endswith("!nostop") or obs == "nofuel" or obs.startswith("hang")):
+        # the iterator of a finite range yields more elements than the bounds allow
+        try:
+            return "api:%s:%s:never-stops:start=%s:end=%s" % (f[0], kind, bclass(int(f[3])), bclass(int(f[4])))
+        except ValueError:
+            pass
     return "api:%s:%s:%s-vs-%s" % (f[0], kind, oclass(obs), oclass(exp))
 
 
 def api_stream(ctx, model):
     h = vlib.build_harness("c23")
     vlib.value_stream(
-        ctx, "c23.api", h, model, ctx.n(4000, 200000), api_keyfn,
-        "Go API: vm.<Kind>RangeContains on all 8 kinds (C requests) and <Kind>RangeIteratorNext driven to the end / for a "
-        "prefix (E requests) with SmallInt and BigInt bounds around 0, +-2^63, +-2^64 and random 1-100 bit values, lengths "
-        "-3..12; non-trivial = non-empty range or contains = true; distinct by full input",
+        ctx, "c23.api", h, model, ctx.n(6000, 200000), api_keyfn,
+        "Go API: vm.<Kind>RangeContains on all 8 kinds (C requests), <Kind>RangeIteratorNext driven to the end / for a "
+        "prefix (E requests) and <Kind>RangeIteratorAll (A requests). Half of the budget: the systematic grid of every "
+        "iterable kind x 20 anchors (Min/MaxSmallInt and +-1/+-2, +-2^63, +-2^64, +-(2^64-1), +-2^32, +-2^31, 0) x range "
+        "STARTING / ENDING exactly on the anchor x bound distance 0..3 (E, A and contains at the anchor +-1); the rest "
+        "random: SmallInt and BigInt bounds around 0, +-2^63, +-2^64 and random 1-100 bit values, lengths -3..12, one third "
+        "anchored (start / end / first element / last element on an anchor, distance -2..8). A finite range that yields "
+        "more than (end-start)+4 elements is cut off and reported as a wrong list ending in !nostop; 60 s watchdog per "
+        "case; non-trivial = non-empty range or contains = true; distinct by full input",
         corpus=os.path.join(vlib.ROOT, "corpus", "C23.api.txt"),
         nontrivial=lambda i, o: o not in ("[]", "false"))
